@@ -862,7 +862,7 @@ pub fn run(ck: &mut Check) {
     for cls in ["v1-2", "v3-5", "v6", "v7", "v8-9", "v10", "v11", "spec_accepts", "spec_rejects"] {
         ck.floor("rule_group_products", cls, 1000);
     }
-    let n = ck.n(100_000, 5_000_000);
+    let n = ck.n(300_000, 5_000_000);
     let ncells = cases.len();
     let cases2 = cases.clone();
     ck.prop(
